@@ -163,9 +163,20 @@ def gen_value(rng, chk, q):
     if q != "n" and (not v or rng.random() < 0.08):
         chk.bump("value:empty-quoted")
         return b""
+    if q == "n" and rng.random() < 0.07:
+        # `key =`, `key = ; note`: no value text at all, the line assigns nothing (IniSpec.Entry.binding)
+        chk.bump("value:none-unquoted")
+        return b""
+    if q != "n" and rng.random() < 0.04:
+        chk.bump("value:quoted-blanks-only")
+        return bytes(rng.choice(BLANKS) for _ in range(rng.randrange(1, 4)))
     v = fix_ends(rng, v, {34, 39} if q == "n" else set(), forbid)
     if (q == "d" and v == b"''") or (q == "s" and v == b'""'):
-        v = b"q" + v          # WF excludes a quoted value that is itself the other kind of empty quotes
+        v = b"q" + v          # WF excludes a quoted value that is, blanks aside, the other kind of empty quotes
+    if q != "n" and rng.random() < 0.15:
+        # blanks directly inside the quotes: dropped by the parser, and by the documented meaning
+        v = blanks(rng, 0.7, 2) + v + blanks(rng, 0.7, 2)
+        chk.bump("value:blanks-inside-quotes")
     chk.bump("value:" + t)
     return v
 
@@ -249,10 +260,16 @@ def gen_header(rng, chk, names):
             n = n + str(rng.randrange(1000)).encode()
         if rng.random() < 0.1:
             n = fix_ends(rng, rand_bytes(rng, rng.randrange(1, 10), {0, 10, 93}), set(), {0, 10, 93})
-        if names and rng.random() < 0.15:
+        if names and rng.random() < 0.1:
+            n = rng.choice(sorted(names))
+        elif names and rng.random() < 0.15:
             n = fix_ends(rng, bytes(c for c in variant(rng, rng.choice(sorted(names))) if c not in (0, 10, 93)), set(), {0, 10, 93})
             chk.bump("header:variant-of-another")
         if n not in names:
+            break
+        if rng.random() < 0.5:
+            # a repeated header starts a section of its own; look-ups by name see one of them (IniSpec.seenSec)
+            chk.bump("header:repeated-name")
             break
     names.add(n)
     lead, pre, post, trail = blanks(rng, 0.15), blanks(rng, 0.2, 2), blanks(rng, 0.2, 2), blanks(rng, 0.2)
@@ -802,6 +819,24 @@ def directed_cases():
     # the same key in two sections, a key named like a section, a section that only has a key of another one
     out.append(doc([H(b"a"), E(b"x", b"1"), E(b"a", b"2"), H(b"b"), E(b"y", b"3"), H(b"x"), E(b"b", b"4")],
                    ["gget %s %s 64 -7 %d %s" % (hx(a), hx(b), bd, z) for a in (b"a", b"b", b"x", b"y") for b in (b"x", b"y", b"a", b"b") for bd in (0, 1)]))
+    # corners of the grammar the round-trip theorem covers: no value text at all (the line assigns nothing, also when it
+    # repeats a key that has a value), blanks directly inside quotes, a quoted value of blanks only, '=' and comment
+    # markers inside values
+    def EC(k, v, q, post, trail, cm, ct):
+        return Line("ent", ["-", hx(k), "-", hx(post), q, hx(v), hx(trail), str(cm), hx(ct)],
+                    k + b"=" + post + QUOTES[q] + v + QUOTES[q] + trail + (bytes([cm]) + ct if cm else b""))
+    out.append(doc([H(b"s"), E(b"k", b"1"), E(b"k", b""), E(b"e", b""), EC(b"c", b"", "n", b" ", b"\t", 59, b" x = y"), EC(b"d", b"", "n", b"", b"", 35, b""),
+                    E(b"q", b" a b ", "d"), E(b"r", b"\t", "s"), E(b"t", b" ; # = ", "d"), E(b"u", b"a=b=c"), EC(b"w", b"x = 'y'", "n", b" ", b" ", 59, b"z"),
+                    H(b"only-empty"), E(b"a", b""), EC(b"b", b"", "n", b" ", b" ", 35, b" c")],
+                   ["gget %s %s 64 -7 %d %s" % (hx(a), hx(b), bd, z) for a in (b"s", b"only-empty") for b in (b"k", b"e", b"c", b"d", b"q", b"r", b"t", b"u", b"w", b"a", b"b") for bd in (0, 1)]))
+    # repeated section headers: not merged, listed once each, look-ups see the first one in look-up order
+    # (sections before the final one, latest first, then the final one)
+    rep = ["gget %s %s 64 -7 0 %s" % (hx(a), hx(b), z) for a in (b"a", b"b") for b in (b"k", b"j", b"x")]
+    out.append(doc([H(b"a"), E(b"k", b"1"), H(b"b"), E(b"x", b"1"), H(b"a"), E(b"j", b"2")], rep))
+    out.append(doc([H(b"a"), E(b"k", b"1"), H(b"a"), E(b"k", b"2"), E(b"j", b"3"), H(b"b"), E(b"x", b"1")], rep))
+    out.append(doc([H(b"a"), H(b"a"), E(b"k", b"1"), H(b"a")], rep))
+    out.append(doc([H(b"a"), E(b"k", b"1"), H(b"a"), E(b"k", b""), H(b"a"), E(b"j", b"2"), H(b"a")], rep))
+    out.append(doc([H(b"a"), E(b"k", b"1"), H(b"b"), E(b"x", b"1"), H(b"a"), E(b"k", b"2"), H(b"b"), E(b"x", b"2"), H(b"a"), E(b"k", b"3")], rep))
     # list values at the sizes of the item buffer, many items, white space other than SP/HT
     for v in (b"{" + b"x" * 1000 + b"}", b"{" + b" ".join([b"i"] * 400) + b"}", b"{a\x0bb\x0cc\rd}", b"{a}", b"{ a }", b"{a b}x}", b"{{}"):
         out.append(doc([H(b"s"), E(b"l", v)], ["gget 73 6c NULL 0 0 %s" % z]))
@@ -903,6 +938,6 @@ def run(chk):
         "the file is read back exactly as written (regular file on a local file system, fopen \"r\" does no translation on POSIX)",
         "allocation never fails in this check (C18 covers failure)",
         "fopen (directory, \"r\") succeeds and the first fgets on it fails (Linux/glibc): a directory parses as an empty file (op lifec, segment D)",
-        "the spec column is produced for documents satisfying PV.IniSpec.WF only: distinct section names, non-empty unquoted values, no blanks directly inside quotes, no NUL, lines <= 1024 bytes, no line that starts like a byte-order mark",
+        "the spec column is produced for documents satisfying PV.IniSpec.WF only: no NUL, lines <= 1024 bytes, no line that starts like a byte-order mark",
     ]
     return finish(chk)
